@@ -17,6 +17,8 @@ PROP = Property(
         anchors=[(CM, "verify_leaves_membership_from_batch_path", None), (TR, "compute_merkle_tree_batch_path", None), (TR, "new", "MerkleTree<D, L>")],
         harnesses=[H("c09_completeness_n%d_m%d" % sh, "bounded", COMP, FN, bound="n = %d leaves (symbolic bytes), selection mask %d" % sh, replay="none", timeout=1500,
                      tier=("quick" if sh in [(1, 1), (2, 1), (2, 2), (2, 3)] else "thorough")) for sh in [(1, 1), (2, 1), (2, 2), (2, 3), (3, 1), (3, 2), (3, 3), (3, 4), (3, 5), (3, 6), (3, 7), (4, 5), (4, 10), (4, 15)]]
+        + [H("c09_length_binding_%s" % nm, "bounded", "a proof for ki indices presented with kc != ki claimed leaves is rejected (symbolic leaves, claims, path values)", FN,
+             bound="shape %s" % nm, replay="none", timeout=1500, tier=("quick" if nm == "n2_i1_c2" else "thorough")) for nm in ["n2_i1_c2", "n2_i2_c1", "n3_i1_c2"]]
         + [H("c09_soundness_%s" % nm, "bounded", SOUND, FN, bound="shape %s: n leaves, k claimed leaves, v path values, wire indices concrete; leaf bytes / claimed leaves / path values symbolic" % nm, replay="none", timeout=1500,
              tier=("quick" if nm in QUICK_SOUND else "thorough")) for nm in SOUND_SHAPES]
         )],
